@@ -95,6 +95,15 @@ def build_species(sp):
 # ------------------------------------------------------------------ model
 def gen_model(rng, tier, **force):
     big = tier == 'thorough'
+    # half of the models avoid the input classes that make a whole file unusable on the current tree
+    # (NASA-9 species in CTI, molecule-based lateral interactions, unnamed BEPs, site-before-gas
+    # adsorption, YAML keyword names) so that every clause keeps being evaluated on complete files
+    profile = force.pop('profile', None) or rng.choice(['plain', 'hostile'])
+    if profile == 'plain':
+        force.setdefault('kinds_w', rng.choice([[6, 0, 2], [8, 0, 0], [4, 0, 4]]))
+        force.setdefault('site_first_p', 0.0)
+        force.setdefault('bep_named', True)
+        force.setdefault('yaml_keyword_name', False)
     layout = force.get('layout') or rng.choices(
         ['g+b+s', 'g+s', 'g+b+s+s', 'g+s+s', 's', 'g', 'b+s', 'g+b'],
         [6, 4, 6, 3, 2, 1, 1, 1])[0]
@@ -177,6 +186,7 @@ def gen_model(rng, tier, **force):
     reactions = []
     ts_species = []
     used_ids = set()
+    seen_eq = set()
     user_id_mode = force.get('ids') or rng.choice(['auto', 'auto', 'user', 'mixed'])
     site_first_p = force.get('site_first_p', 0.08)
     for i in range(n_rxn):
@@ -222,6 +232,13 @@ def gen_model(rng, tier, **force):
         else:
             rx['ts'] = None
             rx['direction'] = None
+        # pairwise distinct reactions (an identical duplicate is not a second reaction of the model)
+        eqk = (tuple(sorted(map(tuple, rx['reactants']))), tuple(sorted(map(tuple, rx['products']))))
+        if eqk in seen_eq:
+            if tsk == 'species':
+                ts_species.pop()
+            continue
+        seen_eq.add(eqk)
         rx['A'] = None if is_ads else rng.choice([None, None, float('%.4g' % (10 ** rng.uniform(8, 22)))])
         rx['beta'] = rng.choice([None, None, 0, 1, 0.5, _r(rng, -1, 2, 2)])
         rx['Ea'] = rng.choice([None, None, 0.0, _r(rng, 0.0, 60.0, 3)])
@@ -262,7 +279,11 @@ def gen_model(rng, tier, **force):
                              'intervals': iv, 'slopes': [_r(rng, -60, 20, 3) for _ in iv],
                              'name': ('li_%04d' % (100 + i)) if user else None, 'phase': s['phase']})
 
-    spec = {'kind': 'model', 'units': units, 'units_as': units_as, 'T': _r(rng, 260, 1190, 2),
+    if profile == 'plain' and interactions and units_as != 'none':
+        units['quantity'] = 'mol'
+    if profile == 'plain' and interactions and units_as == 'none':
+        interactions = []
+    spec = {'kind': 'model', 'profile': profile, 'units': units, 'units_as': units_as, 'T': _r(rng, 260, 1190, 2),
             'P': rng.choice([1.0, 1.0, _r(rng, 0.01, 50, 3)]), 'motz_wise': rng.random() < 0.5,
             'populate': populate, 'phases': phases, 'species': species, 'ts_species': ts_species,
             'beps': beps, 'reactions': reactions, 'interactions': interactions,
@@ -283,11 +304,16 @@ def gen_fill_ops(rng, phases):
     cur = {p['name']: [] for p in phases}
     ops = []
     order = [p['name'] for p in phases]
-    guard = 0
-    while any(todo.values()) and guard < 500:
-        guard += 1
+    detours = rng.randint(0, 6)
+    clears = 1
+    while any(todo.values()):
         pn = rng.choice([n for n in order if todo[n]])
         k = rng.choice(['append', 'append', 'extend', 'extend', 'detour_remove', 'detour_pop', 'detour_clear'])
+        if k.startswith('detour'):
+            if detours <= 0 or not cur[pn]:
+                k = 'append'
+            else:
+                detours -= 1
         if k == 'append':
             nm = todo[pn].pop(0)
             ops.append(['append', pn, nm])
@@ -297,16 +323,17 @@ def gen_fill_ops(rng, phases):
             chunk, todo[pn] = todo[pn][:n], todo[pn][n:]
             ops.append(['extend', pn, chunk])
             cur[pn].extend(chunk)
-        elif k == 'detour_remove' and cur[pn]:
+        elif k == 'detour_remove':
             nm = rng.choice(cur[pn])
             ops.append(['remove', pn, nm])
             cur[pn].remove(nm)
             todo[pn].append(nm)
-        elif k == 'detour_pop' and cur[pn]:
+        elif k == 'detour_pop':
             i = rng.randrange(len(cur[pn]))
             ops.append(['pop', pn, i])
             todo[pn].append(cur[pn].pop(i))
-        elif k == 'detour_clear' and cur[pn] and rng.random() < 0.4:
+        elif k == 'detour_clear' and clears > 0:
+            clears -= 1
             ops.append(['clear', pn])
             todo[pn] = cur[pn] + todo[pn]
             cur[pn] = []
